@@ -372,7 +372,7 @@ class Oracle:
             return
         # a database the oracle lost track of: skip until its next dump, which is adopted
         dslot = None
-        if op in ("put", "putbig", "get", "getcopy", "del", "rdump", "struct", "dump"):
+        if op in ("put", "putbig", "putkbig", "get", "getcopy", "del", "rdump", "struct", "dump"):
             dslot = int(f[1])
         elif op in ("cto", "ctokey", "cget", "ckey", "cval", "ccopyval", "ccopykey", "cmatch", "cset", "cdel") and int(f[1]) in self.cur:
             dslot = self.cur[int(f[1])]["db"]
@@ -426,6 +426,18 @@ class Oracle:
                 bad("db destroy failed")
             self.db[d] = {}
             self.meta[d] = None
+        elif op == "putkbig":
+            d = int(f[1]); comp = int(f[3]); m = self.modes[d]
+            ksz = int(f[4]) + (len(vnum(comp)) if m[2] == "1" else 0)
+            if self.rdonly:
+                exp = "READONLY"
+            elif len(vnum(ksz)) + ksz + len(unhex(f[5])) > 0xfffffff:
+                exp = "MAXKVSZ"
+            else:
+                exp = None
+                self.uncertain.add(d)
+            if exp is not None and o[0] != exp:
+                bad("put of a pair beyond the size limit answers %s (expected %s)" % (o[0], exp))
         elif op in ("put", "putbig"):
             d = int(f[1]); k = unhex(f[2]); comp = int(f[3])
             m = self.modes[d]
@@ -1021,7 +1033,7 @@ def clean(lines):
             break
 
 
-def drive(run, profile, nscripts, nops, theorem_pid=None, asan=False, reopen=False, extra_check=None, audit=False, geometry=0, boundary=0, bigfile=0, slack=True, destroy=0, thin=0, uplink=0, probe=0):
+def drive(run, profile, nscripts, nops, theorem_pid=None, asan=False, reopen=False, extra_check=None, audit=False, geometry=0, boundary=0, bigfile=0, slack=True, destroy=0, thin=0, uplink=0, probe=0, hugekey=0):
     """common body of the KV checks"""
     proofs_ok = run.proofs(theorem_pid or run.pid)
     impl = vlib.build_harness("h_kv", "asan" if asan else "plain")
@@ -1058,6 +1070,10 @@ def drive(run, profile, nscripts, nops, theorem_pid=None, asan=False, reopen=Fal
             rng = run.rng.fork()
             ls, meta = thin_script(rng, os.path.join(work, "t%d.db" % n), wal=rng.below(2))
             scripts.append(("thin%d" % n, ls, meta))
+        for n in range(hugekey or 0):
+            rng = run.rng.fork()
+            ls, meta = hugekey_script(rng, os.path.join(work, "h%d.db" % n), wal=rng.below(2))
+            scripts.append(("hugekey%d" % n, ls, meta))
         for n in range(probe or 0):
             rng = run.rng.fork()
             ls, meta = probe_script(rng, os.path.join(work, "p%d.db" % n), wal=rng.below(2))
@@ -1345,6 +1361,29 @@ def thin_script(rng, path, wal=0):
         L.append("get 0 %s 0" % hexb(b"k%05d" % i))
     L += ["dump 0", "struct 0", "dump 1", "sync", "close", "open %s %d 0 0 0" % (path, wal), "db 0 1 000", "db 1 2 000", "dump 0", "dump 1", "getmeta 1 10000", "close"]
     return L, {"modes": ["000", "000"], "wal": wal}
+
+
+def hugekey_script(rng, path, wal=0):
+    """a pair whose KEY alone is at or beyond the record size limit (0xfffffff) must be refused before anything is touched:
+    asked where a refusal that comes too late would hurt - a key that sorts into the middle (front, back) of a node that is
+    full, so that the insertion would have to split it - in plain and compound byte-key modes; then everything is read back,
+    the structure is walked, the store is reopened."""
+    mode = rng.choice(["000", "001"])
+    L = ["open %s %d 0 1 0" % (path, wal), "db 0 1 %s" % mode]
+    n = rng.choice([32, 64, 33])
+    for i in range(n):
+        L.append("put 0 %s %d %s 0 0" % (hexb(b"k%03d" % i), 5 if mode == "001" else 0, hexb(b"v%d" % i)))
+    lim = 0xfffffff
+    for _ in range(rng.choice([1, 2, 3])):
+        pre = rng.choice([b"k%03d" % rng.below(n) + b"x", b"k015x", b"a", b"z", b"k%03d" % (n - 1) + b"z"])
+        ksz = rng.choice([lim, lim - 3, lim - 1, lim + 1, lim + 100, 1 << 29])    # every one refused: 4 + ksz > lim (an accepted 256 MB key is not this script's subject)
+        L.append("putkbig 0 %s %d %d %s" % (hexb(pre), 5 if mode == "001" else 0, ksz, hexb(rng.bytes(rng.choice([0, 1, 8])))))
+        for i in range(0, n, rng.choice([1, 3])):
+            L.append("get 0 %s %d" % (hexb(b"k%03d" % i), 5 if mode == "001" else 0))
+        L += ["struct 0"]
+        L.append("put 0 %s %d %s 0 0" % (hexb(b"k%03dy" % rng.below(n)), 5 if mode == "001" else 0, hexb(b"w")))
+    L += ["dump 0", "rdump 0", "struct 0", "close", "open %s %d 0 0 0" % (path, wal), "db 0 1 %s" % mode, "dump 0", "close"]
+    return L, {"modes": [mode], "wal": wal}
 
 
 def probe_script(rng, path, wal=0):
